@@ -437,7 +437,18 @@ inline ModelResult evalModel(const Config &cfg, const Line &line) {
 
   for (size_t ui = 0; ui < line.size(); ++ui) {
     const Use &u = line[ui];
-    if (u.arg < 0) return reject("unknown key '" + u.keyText + "'");
+    if (u.arg < 0) {
+      if (u.keyText.empty()) {
+        // a bare value word without key: it belongs to the preceding argument if that one takes multiple values,
+        // otherwise (no positional argument is ever defined) it is an unknown argument
+        if (ui > 0 && line[ui - 1].arg >= 0 && cfg.args[line[ui - 1].arg].multiValue && isContainer(sk[cfg.args[line[ui - 1].arg].slot]))
+          return undefinedR("stray value behind a multi-value argument");
+        if (ui > 0 && line[ui - 1].arg >= 0 && !line[ui - 1].hasValue && sk[cfg.args[line[ui - 1].arg].slot] != K_FLAG)
+          return undefinedR("stray value behind an argument used without its (optional) value");
+        return reject("stray value without key");
+      }
+      return reject("unknown key '" + u.keyText + "'");
+    }
     const ArgDef &a = cfg.args[u.arg];
     const int kind = sk[a.slot];
     ArgState &as = st[u.arg];
